@@ -5,7 +5,7 @@ Usage: /venv/bin/python selftest/run.py [--no-seeded]"""
 import json, os, subprocess, sys, time
 sys.path.insert(0, os.path.dirname(os.path.abspath(__file__)))
 from common import base_model, run_overlay, PROPERTIES, reformat  # noqa: E402
-from refactors import rename_locals, insert_noops, flip_comparisons, permute_methods, de_morgan, return_variable  # noqa: E402
+from refactors import rename_locals, insert_noops, flip_comparisons, permute_methods, de_morgan, return_variable, swap_if_else  # noqa: E402
 
 REFACTORS = [
     ("reformat every module through ast.unparse (layout, quotes, comments gone)", reformat),
@@ -15,8 +15,9 @@ REFACTORS = [
     ("reverse the order of the undecorated methods of every class / functions of every module", permute_methods),
     ("De Morgan: not (a or b) -> (not a) and (not b), not (a and b) -> (not a) or (not b)", de_morgan),
     ("introduce a variable for every returned expression (t = e; return t)", return_variable),
-    ("rename + noops + flipped comparisons + De Morgan + return variables + permuted methods combined",
-     lambda s: permute_methods(return_variable(de_morgan(flip_comparisons(insert_noops(rename_locals(s))))))),
+    ("exchange the arms of every two-armed if / conditional expression under the negated test", swap_if_else),
+    ("rename + noops + flipped comparisons + De Morgan + return variables + permuted methods + exchanged arms combined",
+     lambda s: swap_if_else(permute_methods(return_variable(de_morgan(flip_comparisons(insert_noops(rename_locals(s)))))))),
 ]
 
 
